@@ -119,7 +119,18 @@ class LifeScn(Scn):
         w = World(d["backend"], 3, app_id="c10l")
         self.w = w
         kind = d["queue"]
-        if kind in ("retry", "fail"):
+        client_actor = None
+        if kind == "batch-register":
+            # the batch registration itself runs under the scheduler: its history writers are late by default
+            w.bind(tasks.keyed)
+            w.ids = []
+
+            def client_actor() -> None:
+                grp = w.task("keyed", 2).parallelize([(1, 0), (2, 0), (3, 0)])
+                w.ids.extend(str(i.invocation_id) for i in grp.invocations)
+                self.post_actor(2, w, w.apps[2])
+            rounds = 2
+        elif kind in ("retry", "fail"):
             w.bind(tasks.scripted, max_retries=2)
             plan = {"a": ["retry", "ok"] if kind == "retry" else ["retry", "fail"]}
 
@@ -167,7 +178,10 @@ class LifeScn(Scn):
             return f
 
         s = sched.Scheduler(choices, expect, max_points=6000)
-        ex = s.run([(f"w{j}", actor(j)) for j in range(2)])
+        actors = [(f"w{j}", actor(j)) for j in range(2)]
+        if client_actor is not None:
+            actors = [("client", client_actor), actors[0]]
+        ex = s.run(actors)
         ex.world = w
         w.flush()
         ex.histories = {i: w.history(i, -1) for i in w.ids}
@@ -181,7 +195,7 @@ class LifeScn(Scn):
         return (recs, oks, hs, ex.outcome)
 
 
-LIFE_KINDS = ("retry", "fail", "cc", "cc-final")
+LIFE_KINDS = ("retry", "fail", "cc", "cc-final", "batch-register")
 
 
 def build(desc: dict) -> Scn:
